@@ -148,3 +148,54 @@ Proof.
   apply (all_some_map _ _ _ (dd_entry uletter dd_int_of) wlog_doc wlog_ddlog).
   intros w Hw. apply dd_entry_written. rewrite Forall_forall in H. exact (H w Hw).
 Qed.
+
+(* a series object as a client writes it: tb / iv = the float bits of the timestamp text and whether the value text is an integer *)
+Record wseries := WS { ws_metric : option string; ws_resources : list labels; ws_points : list (Z * N); ws_tb : Z -> N; ws_iv : N -> option Z }.
+Definition wpoint_doc (tb : Z -> N) (iv : N -> option Z) (p : Z * N) : jv :=
+  JObj [("timestamp"%string, JNum (tb (fst p)) (Some (fst p))); ("value"%string, JNum (snd p) (iv (snd p)))].
+Definition wresource_doc (r : labels) : jv := JObj (map (fun kv => (fst kv, JStr (snd kv))) r).
+Definition wseries_doc (s : wseries) : jv :=
+  JObj (omember "metric" (ws_metric s)
+        ++ [("resources"%string, JArr (map wresource_doc (ws_resources s)));
+            ("points"%string, JArr (map (wpoint_doc (ws_tb s) (ws_iv s)) (ws_points s)));
+            ("type"%string, JNum 0%N (Some 0))]).
+Definition wseries_series (s : wseries) : ddseries := DS (ws_metric s) (ws_resources s) (ws_points s).
+
+Lemma points_array_written : forall tb iv ps st acc,
+  exists st', points_array (map (wpoint_doc tb iv) ps) st acc = WOk (acc ++ ps, st')%list.
+Proof.
+  intros tb iv. induction ps as [|[z b] ps IH]; intros st acc.
+  - exists st. cbn. rewrite app_nil_r. reflexivity.
+  - cbn [map points_array wpoint_doc fst snd point_members]. cbn.
+    destruct (IH (Some z, b) (acc ++ [(z, b)])%list) as [st' E]. exists st'. rewrite E. rewrite <- app_assoc. reflexivity.
+Qed.
+
+Lemma resource_object_written : forall r, resource_object (wresource_doc r) = Some r.
+Proof.
+  intro r. unfold resource_object, wresource_doc.
+  rewrite (all_some_map _ _ _ _ (fun kv : string * string => (fst kv, JStr (snd kv))) (fun kv => kv)).
+  - rewrite map_id. reflexivity.
+  - intros [k v] _. reflexivity.
+Qed.
+
+Lemma series_object_written : forall s, series_object (wseries_doc s) = WOk (wseries_series s).
+Proof.
+  intros [m rs ps tb iv]. unfold series_object, wseries_doc, wseries_series. cbn [ws_metric ws_resources ws_points ws_tb ws_iv].
+  assert (R : all_some resource_object (map wresource_doc rs) = Some rs).
+  { rewrite (all_some_map _ _ _ resource_object wresource_doc (fun r => r)); [rewrite map_id; reflexivity|].
+    intros r _. apply resource_object_written. }
+  destruct (points_array_written tb iv ps (None, 0%N) []) as [st' P]. cbn [app] in P.
+  destruct m as [n|]; cbn -[points_array all_some]; rewrite R, P; reflexivity.
+Qed.
+
+Lemma series_array_written : forall ws, series_array (map wseries_doc ws) = WOk (map wseries_series ws).
+Proof.
+  induction ws as [|s ws IH]; [reflexivity|]. cbn [map series_array]. rewrite series_object_written, IH. reflexivity.
+Qed.
+
+Lemma ddmet_document_written_l : forall ws,
+  ddmet_document (JObj [("series"%string, JArr (map wseries_doc ws))]) = WOk (map wseries_series ws).
+Proof.
+  intro ws. unfold ddmet_document. cbn [ddmet_top]. change (String.eqb "series" "series") with true. cbv iota.
+  rewrite series_array_written. rewrite app_nil_r. reflexivity.
+Qed.
